@@ -740,7 +740,7 @@ private theorem one_tok_value (s : List Char) :
     and any dialect with an empty separator whose words are printed with exactly `word_size / 4`
     digits and fill 48 bits): the printed text is the twelve-digit bare spelling and parses back,
     with implicit and with explicit version, to (48, value).  `C08.roundtrip_fit48` does not
-    cover these: its `fits` admits an empty separator for one-word dialects only. -/
+    cover these: its `fits` allows an empty separator for one-word dialects only. -/
 theorem roundtrip_bare48 (d : Dialect) (f : MacFmt) (hf : f ∈ macFormats) (hfit : fitsBare d f 48 = true)
     (v : Nat) (hv : v < 2 ^ 48) :
     ∃ s, intToStr d v = .ok s ∧ strToInt48 s = .ok v ∧ ofAny (.str s) none = .ok (48, v) ∧
